@@ -10,6 +10,7 @@ import (
 	"strconv"
 	"strings"
 	"sync"
+	"time"
 	"unicode/utf8"
 
 	"verif/internal/core"
@@ -26,41 +27,54 @@ type failure struct {
 	key   string
 	what  string
 	files map[string]string
+	lazy  func() map[string]string // evaluated only for the reported witness
 }
 
 type failSink struct {
-	mu sync.Mutex
-	l  []failure
+	mu    sync.Mutex
+	best  map[string]failure
+	count map[string]int
 }
 
 func (s *failSink) add(f failure) {
 	s.mu.Lock()
-	s.l = append(s.l, f)
-	s.mu.Unlock()
+	defer s.mu.Unlock()
+	if s.best == nil {
+		s.best, s.count = map[string]failure{}, map[string]int{}
+	}
+	s.count[f.key]++
+	if b, ok := s.best[f.key]; !ok || f.order < b.order {
+		s.best[f.key] = f
+	}
 }
 
-// report records the first witness of every key as a violation and returns the number of keys.
+// report records the first witness (in generation order, independent of scheduling) of every key
+// as a violation and returns the number of keys.
 func (s *failSink) report(c *core.Ctx) int {
-	sort.SliceStable(s.l, func(i, j int) bool { return s.l[i].order < s.l[j].order })
-	seen := map[string]int{}
 	var first []failure
-	for _, f := range s.l {
-		if seen[f.key] == 0 {
-			first = append(first, f)
-		}
-		seen[f.key]++
+	for _, f := range s.best {
+		first = append(first, f)
 	}
+	sort.Slice(first, func(i, j int) bool { return first[i].order < first[j].order })
 	for _, f := range first {
 		what := f.what
-		if n := seen[f.key]; n > 1 {
+		if n := s.count[f.key]; n > 1 {
 			what += fmt.Sprintf("\n(%d refuting observations share the key %q in this run; this is the first)", n, f.key)
 		}
-		c.Violate(f.key, what, f.files)
+		files := f.files
+		if f.lazy != nil {
+			files = f.lazy()
+		}
+		c.Violate(f.key, what, files)
 	}
-	for k, n := range seen {
+	for k, n := range s.count {
 		c.Count("refuting_observations["+k+"]", n)
 	}
 	return len(first)
+}
+
+func mkFail(order, key, what string, files map[string]string) failure {
+	return failure{order: order, key: key, what: what, files: files}
 }
 
 type frame struct {
@@ -107,6 +121,7 @@ var preludeNames = map[string]bool{"prelude.js": true, "numeric.js": true, "numb
 
 // resolved is a frame after source-map resolution by one of the two consumers.
 type resolved struct {
+	last   bool   // own decoder: the lookup hit the final segment of the map
 	ok     bool   // resolved to an original source
 	source string // source name as in the map ("main.go", "/runtime/x.go", …); "" when !ok
 	line   int
@@ -163,10 +178,11 @@ func ownResolved(f frame, outJS string, lines [][]byte, sm *SMap, byteCols bool)
 		col = u16ToByte(lines[f.line-1], col)
 	}
 	s, ok := sm.Lookup(f.line-1, col)
+	last := len(sm.sorted) > 0 && s == sm.sorted[len(sm.sorted)-1]
 	if !ok {
-		return resolved{inOut: true}
+		return resolved{inOut: true, last: last}
 	}
-	return resolved{ok: true, inOut: true, source: sm.Sources[s.Src], line: s.OrigLine}
+	return resolved{ok: true, inOut: true, source: sm.Sources[s.Src], line: s.OrigLine, last: last}
 }
 
 // u16ToByte converts an offset in UTF-16 code units into a byte offset within line.
@@ -184,13 +200,20 @@ func u16ToByte(line []byte, u int) int {
 	return b + (u - n)
 }
 
-// siteFrame returns the index of the first frame that is neither helper, prelude nor GOROOT code.
+// siteFrame returns the index of the throwing frame: after the leading frames of the probe helper
+// (its deferred closure) and the runtime frames that raise the panic (prelude, GOROOT packages).
 func siteFrame(rs []resolved) int {
-	for i, r := range rs {
-		switch r.class() {
-		case "program", "unresolved":
-			return i
+	i := 0
+	for i < len(rs) && rs[i].class() == "helper" {
+		i++
+	}
+	for i < len(rs) {
+		switch rs[i].class() {
+		case "prelude", "goroot", "foreign":
+			i++
+			continue
 		}
+		return i
 	}
 	return -1
 }
@@ -243,25 +266,26 @@ var variants = []variantSpec{{"plain", false}, {"minified", true}}
 
 // progStats is what one program contributed to the evidence.
 type progStats struct {
-	compiled       bool
-	mappings       int
-	goMappings     int
-	jsMappings     int
-	sources        int
-	bytesCompared  int
-	probesNode     int
-	probesOwn      int
-	probesUncaught int
-	altAccepted    int
-	framesCross    int
-	distinct       map[string]bool
-	kinds          map[string]bool
-	ambiguousPos   int
-	sample         any
-	origColBeyond  int
-	viaIncChecked  int
-	colBeyondU16   int
-	noPanic        int
+	compiled         bool
+	mappings         int
+	goMappings       int
+	jsMappings       int
+	sources          int
+	bytesCompared    int
+	probesNode       int
+	probesOwn        int
+	probesUncaught   int
+	altAccepted      int
+	framesCross      int
+	distinct         map[string]bool
+	kinds            map[string]bool
+	ambiguousPos     int
+	sample           any
+	origColBeyond    int
+	viaIncChecked    int
+	colBeyondU16     int
+	noPanic          int
+	nodeLastSegQuirk int
 }
 
 type sourceInfo struct {
@@ -275,7 +299,7 @@ type env struct {
 }
 
 func goEnv(extra []string) env {
-	r := core.Exec("/", core.BaseEnv(extra...), 60e9, "", "go", "env", "GOROOT", "GOPATH")
+	r := core.Exec("/", core.BaseEnv(extra...), time.Minute, "", "go", "env", "GOROOT", "GOPATH")
 	ls := strings.Split(strings.TrimSpace(r.Stdout), "\n")
 	e := env{}
 	if len(ls) >= 2 {
@@ -388,7 +412,9 @@ func progBundle(p *GenProgram, extra map[string]string) map[string]string {
 func checkProgram(c *core.Ctx, idx int, p *GenProgram, sink *failSink, nUncaught int) progStats {
 	st := progStats{distinct: map[string]bool{}, kinds: map[string]bool{}}
 	dir := c.WriteProgram(&core.Program{Name: p.Name, Files: p.Files})
-	defer os.RemoveAll(dir)
+	if os.Getenv("VERIF_C19_KEEP") == "" {
+		defer os.RemoveAll(dir)
+	}
 	var cenv []string
 	if p.GopathSibling {
 		// a GOPATH that is a string prefix of the project directory without containing it
@@ -400,11 +426,24 @@ func checkProgram(c *core.Ctx, idx int, p *GenProgram, sink *failSink, nUncaught
 	e := goEnv(cenv)
 	r := c.Rand("probe-select/" + p.Name)
 	for vi, v := range variants {
-		ord := fmt.Sprintf("%04d/%d", idx, vi)
+		ord := fmt.Sprintf("P%04d/%d", idx, vi)
 		outJS := filepath.Join(dir, "out-"+v.name+".js")
 		noJS := filepath.Join(dir, "nomap-"+v.name+".js")
-		cr := c.CompileJS(dir, core.CompileOpt{Minify: v.minify, MapFile: true, Out: outJS, Env: cenv})
-		cn := c.CompileJS(dir, core.CompileOpt{Minify: v.minify, MapFile: false, Out: noJS, Env: cenv})
+		var cr, cn core.CompileRes
+		if idx%4 == 0 {
+			// two independent builds through the shared compile child
+			cr = c.CompileJS(dir, core.CompileOpt{Minify: v.minify, MapFile: true, Out: outJS, Env: cenv})
+			cn = c.CompileJS(dir, core.CompileOpt{Minify: v.minify, MapFile: false, Out: noJS, Env: cenv})
+		} else {
+			// one compilation, linked with and without a map (WriteCommandPackage's code path)
+			args := []string{"c19build", "-o", outJS, "-nomap", noJS}
+			if v.minify {
+				args = append(args, "-minify")
+			}
+			x := core.Exec(dir, core.BaseEnv(cenv...), 5*time.Minute, "", c.Self, args...)
+			cr = core.CompileRes{JS: outJS, OK: x.Exit == 0 && !x.TimedOut, Output: x.Stdout + x.Stderr, TimedOut: x.TimedOut}
+			cn = cr
+		}
 		if cr.TimedOut || cn.TimedOut {
 			c.Inconclusive("compile-timeout")
 			return st
@@ -440,9 +479,9 @@ func checkProgram(c *core.Ctx, idx int, p *GenProgram, sink *failSink, nUncaught
 				if lo < 0 {
 					lo = 0
 				}
-				sink.add(failure{ord + "/i", "hint-byte-in-output/" + v.name,
+				sink.add(mkFail(ord+"/i", "hint-byte-in-output/"+v.name,
 					fmt.Sprintf("%s (%s, %s): emitted JavaScript contains the hint magic byte 0x08 at offset %d: …%q…", p.Name, v.name, f.n, i, f.b[lo:min(i+40, len(f.b))]),
-					bundle(map[string]string{"out.js": string(f.b)})})
+					bundle(map[string]string{"out.js": string(f.b)})))
 			}
 		}
 
@@ -450,16 +489,16 @@ func checkProgram(c *core.Ctx, idx int, p *GenProgram, sink *failSink, nUncaught
 		trailer := "//# sourceMappingURL=" + filepath.Base(outJS) + ".map\n"
 		body := out
 		if !bytes.HasSuffix(out, []byte(trailer)) {
-			sink.add(failure{ord + "/ii", "map-trailer-missing/" + v.name, fmt.Sprintf("%s (%s): output built with a map does not end with %q", p.Name, v.name, trailer), bundle(nil)})
+			sink.add(mkFail(ord+"/ii", "map-trailer-missing/"+v.name, fmt.Sprintf("%s (%s): output built with a map does not end with %q", p.Name, v.name, trailer), bundle(nil)))
 		} else {
 			body = out[:len(out)-len(trailer)]
 		}
 		if v.minify {
 			st.bytesCompared += len(body)
 			if !bytes.Equal(body, nomap) {
-				sink.add(failure{ord + "/ii", "map-changes-code/" + v.name,
+				sink.add(mkFail(ord+"/ii", "map-changes-code/"+v.name,
 					fmt.Sprintf("%s (%s): building with a source map changes the emitted code beyond the sourceMappingURL trailer: %s", p.Name, v.name, firstByteDiff(body, nomap)),
-					bundle(map[string]string{"out.js": string(out), "nomap.js": string(nomap)})})
+					bundle(map[string]string{"out.js": string(out), "nomap.js": string(nomap)})))
 			}
 		} else {
 			a, b := goRegion(body), goRegion(nomap)
@@ -467,20 +506,20 @@ func checkProgram(c *core.Ctx, idx int, p *GenProgram, sink *failSink, nUncaught
 				st.bytesCompared += len(l) + 1
 			}
 			if len(a) == 0 || strings.Join(a, "\n") != strings.Join(b, "\n") {
-				sink.add(failure{ord + "/ii", "map-changes-code/" + v.name,
+				sink.add(mkFail(ord+"/ii", "map-changes-code/"+v.name,
 					fmt.Sprintf("%s (%s): building with a source map changes the code emitted for Go packages: %s", p.Name, v.name, firstByteDiff([]byte(strings.Join(a, "\n")), []byte(strings.Join(b, "\n")))),
-					bundle(map[string]string{"out.js": string(out), "nomap.js": string(nomap)})})
+					bundle(map[string]string{"out.js": string(out), "nomap.js": string(nomap)})))
 			}
 		}
 
 		// (iii) the map decodes; every mapping is in range on both sides
 		sm, err := DecodeMap(mapBytes)
 		if err != nil {
-			sink.add(failure{ord + "/iii", "map-undecodable/" + v.name, fmt.Sprintf("%s (%s): %v", p.Name, v.name, err), bundle(nil)})
+			sink.add(mkFail(ord+"/iii", "map-undecodable/"+v.name, fmt.Sprintf("%s (%s): %v", p.Name, v.name, err), bundle(nil)))
 			continue
 		}
 		if sm.File != filepath.Base(outJS) {
-			sink.add(failure{ord + "/iii", "map-file-field/" + v.name, fmt.Sprintf("%s (%s): map names file %q, output is %q", p.Name, v.name, sm.File, filepath.Base(outJS)), bundle(nil)})
+			sink.add(mkFail(ord+"/iii", "map-file-field/"+v.name, fmt.Sprintf("%s (%s): map names file %q, output is %q", p.Name, v.name, sm.File, filepath.Base(outJS)), bundle(nil)))
 		}
 		lines := bytes.Split(out, []byte("\n"))
 		st.mappings += len(sm.Segs)
@@ -493,9 +532,13 @@ func checkProgram(c *core.Ctx, idx int, p *GenProgram, sink *failSink, nUncaught
 				b, _ := os.ReadFile(cands[0])
 				srcInfo[i] = sourceInfo{path: cands[0], lines: countLines(b), ok: true}
 			case 0:
-				sink.add(failure{ord + "/iii/" + name, "source-missing/" + name,
+				key := "source-missing/" + name
+				if p.GopathSibling && !strings.HasPrefix(name, "/") && strings.Contains(name, "/") {
+					key = "source-missing/project-dir-has-gopath-as-string-prefix"
+				}
+				sink.add(mkFail(ord+"/iii/"+name, key,
 					fmt.Sprintf("%s (%s): the map's source %q names no existing file (program dir %s, GOROOT %s, GOPATH %s, repository %s)", p.Name, v.name, name, dir, e.goroot, e.gopath, c.Repo),
-					bundle(nil)})
+					bundle(nil)))
 			default:
 				c.Count("ambiguous_source_names", 1)
 			}
@@ -504,7 +547,7 @@ func checkProgram(c *core.Ctx, idx int, p *GenProgram, sink *failSink, nUncaught
 		beyondU16 := 0
 		for i, s := range sm.Segs {
 			if i > 0 && (s.GenLine < prev.GenLine || s.GenLine == prev.GenLine && s.GenCol < prev.GenCol) {
-				sink.add(failure{ord + "/iii", "map-unsorted/" + v.name, fmt.Sprintf("%s (%s): segment %d precedes its predecessor", p.Name, v.name, i), bundle(nil)})
+				sink.add(mkFail(ord+"/iii", "map-unsorted/"+v.name, fmt.Sprintf("%s (%s): segment %d precedes its predecessor", p.Name, v.name, i), bundle(nil)))
 				break
 			}
 			if i > 0 && s.GenLine == prev.GenLine && s.GenCol == prev.GenCol && (s.HasSrc != prev.HasSrc || s.Src != prev.Src || s.OrigLine != prev.OrigLine) {
@@ -516,9 +559,9 @@ func checkProgram(c *core.Ctx, idx int, p *GenProgram, sink *failSink, nUncaught
 				if s.GenLine < len(lines) {
 					ll = len(lines[s.GenLine])
 				}
-				sink.add(failure{ord + "/iii", "generated-position-out-of-range/" + v.name,
+				sink.add(mkFail(ord+"/iii", "generated-position-out-of-range/"+v.name,
 					fmt.Sprintf("%s (%s): mapping %d points at generated %d:%d, the file has %d lines and that line has %d bytes", p.Name, v.name, i, s.GenLine+1, s.GenCol, len(lines), ll),
-					bundle(map[string]string{"out.js": string(out)})})
+					bundle(map[string]string{"out.js": string(out)})))
 				break
 			}
 			if s.GenCol > u16len(lines[s.GenLine]) {
@@ -534,9 +577,9 @@ func checkProgram(c *core.Ctx, idx int, p *GenProgram, sink *failSink, nUncaught
 			}
 			si := srcInfo[s.Src]
 			if si.ok && (s.OrigLine < 1 || s.OrigLine > si.lines) {
-				sink.add(failure{ord + "/iii", "original-line-out-of-range/" + sm.Sources[s.Src],
+				sink.add(mkFail(ord+"/iii", "original-line-out-of-range/"+sm.Sources[s.Src],
 					fmt.Sprintf("%s (%s): mapping %d (generated %d:%d) points at line %d of %s, which has %d lines", p.Name, v.name, i, s.GenLine+1, s.GenCol, s.OrigLine, si.path, si.lines),
-					bundle(nil)})
+					bundle(nil)))
 				break
 			}
 		}
@@ -557,7 +600,7 @@ func checkProgram(c *core.Ctx, idx int, p *GenProgram, sink *failSink, nUncaught
 		if !mdone || !rdone {
 			c.Inconclusive("sweep-incomplete")
 			if os.Getenv("VERIF_DEBUG") != "" {
-				fmt.Fprintf(os.Stderr, "c19: %s (%s) sweep incomplete:\n%s\n%s\n", p.Name, v.name, clipS(mapped.Stderr, 3000), clipS(raw.Stderr, 3000))
+				fmt.Fprintf(os.Stderr, "c19: %s (%s) sweep incomplete:\n%s\n%s\n", p.Name, v.name, tailS(mapped.Stderr, 1500), tailS(raw.Stderr, 1500))
 			}
 			continue
 		}
@@ -573,19 +616,19 @@ func checkProgram(c *core.Ctx, idx int, p *GenProgram, sink *failSink, nUncaught
 			ev.eval(fmt.Sprintf("%s/p%04d", ord, pr.N), pr, mt, rt, "sweep")
 		}
 		// uncaught mode: the thrown error's own stack, printed by node
-		var sel []*Probe
-		for _, pr := range p.Probes {
-			if r.Intn(len(p.Probes)) < nUncaught {
-				sel = append(sel, pr)
-			}
-		}
-		for _, pr := range sel {
+		for i := 0; i < nUncaught && len(p.Probes) > 0; i++ {
+			pr := p.Probes[r.Intn(len(p.Probes))]
 			ev.uncaught(fmt.Sprintf("%s/u%04d", ord, pr.N), pr, "SEL="+strconv.Itoa(pr.N))
 		}
+		var inits []*Site
 		for _, s := range p.Sites {
 			if s.InitOnly {
-				ev.uncaught(fmt.Sprintf("%s/i%04d", ord, s.ID), &Probe{N: -s.ID, Site: s, Call: "(package initialisation)"}, "ISEL="+strconv.Itoa(s.ID))
+				inits = append(inits, s)
 			}
+		}
+		if len(inits) > 0 && nUncaught > 0 {
+			s := inits[r.Intn(len(inits))]
+			ev.uncaught(fmt.Sprintf("%s/i%04d", ord, s.ID), &Probe{N: -s.ID, Site: s, Call: "(package initialisation)"}, "ISEL="+strconv.Itoa(s.ID))
 		}
 		if st.sample == nil && len(p.Probes) > 0 {
 			pr := p.Probes[len(p.Probes)/2]
@@ -673,10 +716,17 @@ func (ev *evalCtx) eval(ord string, pr *Probe, mappedText, rawText, mode string)
 			if !nodeR[i].inOut && !ownR[i].inOut {
 				continue
 			}
+			if ownR[i].last && !ownR[i].ok {
+				// node v20 mis-parses a source-less segment at the very end of "mappings" (its
+				// parser does not see a separator there) and resolves frames in the trailing
+				// glue code to the previous source position; that is node's business
+				ev.st.nodeLastSegQuirk++
+				continue
+			}
 			ev.st.framesCross++
 			if nodeR[i].ok != ownR[i].ok || nodeR[i].ok && (filepath.Base(nodeR[i].source) != filepath.Base(ownR[i].source) || nodeR[i].line != ownR[i].line) {
-				ev.sink.add(failure{ord + "/x", "consumers-disagree/" + ev.v.name,
-					fmt.Sprintf("frame %d resolves to %s in node and to %s through the harness decoder\n%s", i, nodeR[i], ownR[i], describe()), files()})
+				ev.sink.add(mkFail(ord+"/x", "consumers-disagree/"+ev.v.name,
+					fmt.Sprintf("frame %d resolves to %s in node and to %s through the harness decoder\n%s", i, nodeR[i], ownR[i], describe()), files()))
 				break
 			}
 		}
@@ -721,8 +771,8 @@ func (ev *evalCtx) eval(ord string, pr *Probe, mappedText, rawText, mode string)
 				}
 			}
 			if !found {
-				ev.sink.add(failure{ord, "incjs-frame/" + ev.v.name,
-					fmt.Sprintf("no frame resolves to %s:%d (the call into the Go callback inside the .inc.js file)\n%s", ev.p.IncFile, s.ViaInc, describe()), files()})
+				ev.sink.add(mkFail(ord, "incjs-frame/"+ev.v.name,
+					fmt.Sprintf("no frame resolves to %s:%d (the call into the Go callback inside the .inc.js file)\n%s", ev.p.IncFile, s.ViaInc, describe()), files()))
 			}
 		}
 		return
@@ -734,13 +784,13 @@ func (ev *evalCtx) eval(ord string, pr *Probe, mappedText, rawText, mode string)
 	}
 	// is the miss explained by the generated columns being byte offsets instead of UTF-16 units?
 	if bv, _ := judge("own-bytes", ownB); bv == "ok" {
-		ev.sink.add(failure{ord, "utf16-columns/" + ev.v.name,
+		ev.sink.add(mkFail(ord, "utf16-columns/"+ev.v.name,
 			fmt.Sprintf("%s resolves the throwing frame to %s instead of %s:%d; resolving the same frame with its column converted from UTF-16 units to a byte offset gives the right line: generated columns in the map are byte offsets, consumers count UTF-16 code units\n%s", who, got, s.File, s.Line, describe()),
-			files()})
+			files()))
 		return
 	}
-	ev.sink.add(failure{ord, fmt.Sprintf("throwline/%s/%s/%s", s.Kind, flat, verdict),
-		fmt.Sprintf("%s resolves the throwing frame to %s, expected %s:%d (%s)\n%s", who, got, s.File, s.Line, verdict, describe()), files()})
+	ev.sink.add(mkFail(ord, fmt.Sprintf("throwline/%s/%s/%s", s.Kind, flat, verdict),
+		fmt.Sprintf("%s resolves the throwing frame to %s, expected %s:%d (%s)\n%s", who, got, s.File, s.Line, verdict, describe()), files()))
 }
 
 func firstByteDiff(a, b []byte) string {
@@ -764,4 +814,11 @@ func min(a, b int) int {
 		return a
 	}
 	return b
+}
+
+func tailS(s string, n int) string {
+	if len(s) > n {
+		return "…" + s[len(s)-n:]
+	}
+	return s
 }
